@@ -53,6 +53,8 @@ def gen_case(rnd, thorough):
     dt = rnd.choice(DT)
     rank = rnd.randint(1, 4 if thorough else 3)
     shape = [rnd.choice([0, 1, 2, 3, 4, 5]) if rnd.random() < 0.9 else 0 for _ in range(rank)]
+    if rnd.random() < 0.08:
+        shape = [1] * rank                 # a single element at any rank
     if size(shape) > 200:
         shape = [min(x, 3) for x in shape]
     cells = [cell(rnd, dt) for _ in range(size(shape))]
@@ -205,6 +207,7 @@ def run(ctx):
             if o[3] != DT.index(c["dtype"]):
                 failures.append(("reading a single element fails or returns something else" if o[3] == 97 else
                                  "two objects of the one array report different shapes or cells" if o[3] == 96 else
+                                 "the whole read does not have the shape the array reports" if o[3] == 95 else
                                  "element type / len / size / read_direct inconsistent", inp, {"code": o[3]}))
                 break
         arr = "(mkArr %s %s %s)" % (zl(c["shape"]), zl(c["cells"]), cN(DT.index(c["dtype"])))
